@@ -60,7 +60,7 @@ CLAIMED.update({
     'C11': dict(
         cat='proof', ref='DESIGN 4/C11',
         text='Parser-level half: AbortRequest for the request in progress during Params -> exactly one EndRequest(RequestComplete, 0) for that id, request dropped, parser back to the initial state skipping the abort record body (params_step); during streams -> Err(AbortRequest), nothing consumed, header kept (parse_head); abort for any other id is skipped; Error::AbortRequest -> io::ErrorKind::ConnectionAborted, ExitStatus::ABORT == Complete("ABRT") (complete Kani harnesses).',
-        note='The async half (Token::run translating ConnectionAborted into ExitStatus::ABORT, close()/record_boundary() tolerating it, connection reuse) is outside the reach of both verifiers (see C07) and is an unchecked assumption of this claim.',
+        note='Wire level, machine-checked on the run specifications the two parse functions are proved equal to. Request parser (unit reqsplit, spec/request_abort.rs): lemma_abort_record (an AbortRequest record for the request in progress, with ANY body and padding, owes exactly one EndRequest(RequestComplete, 0), returns to the initial state, is consumed whole), lemma_retained_abort_skipped (an abort header met between requests -- the one the stream parser kept -- is skipped silently), lemma_foreign_abort_ignored, lemma_abort_then_continue, lemma_abort_then_next_request (BeginRequest + any records + abort + a complete next preamble: Done{exactly the next request}, replies = replies before + the ONE EndRequest + replies after, under every read schedule and split choice). Stream parser (unit streamlemmas, spec/stream_abort.rs): lemma_abort_stops (error, nothing consumed: the header stays and the error repeats), lemma_stream_until_abort (after any well-formed records the bytes delivered before the error are exactly the bodies of the active stream sent before the abort -- a prefix of what the client sent; replies exactly those owed before it), lemma_foreign_abort_is_skipped; witnesses for non-vacuity. The async half (Token::run translating ConnectionAborted into ExitStatus::ABORT, close()/record_boundary() tolerating it, connection reuse) is outside the reach of both verifiers (see C07) and is an unchecked assumption of this claim.',
         tech=TECH_V + '; ' + TECH_K),
     'C16': dict(
         cat='proof', ref='DESIGN 4/C16',
